@@ -353,7 +353,7 @@ impl C17 {
 }
 
 /// what the prompt prints for a result (Display of the value); None: not modelled (cycles, non-finite floats)
-fn display_val(v: &Val, out: &mut String) -> Option<()> {
+pub fn display_val(v: &Val, out: &mut String) -> Option<()> {
     match v {
         Val::Null => {}
         Val::Bool(b) => out.push_str(if *b { "ja" } else { "nee" }),
